@@ -7,6 +7,11 @@ From V.Proofs Require Import DisambigProofs.
 Lemma src_only_init_attributes_discriminate : src_dis_skip_noninit = true.
 Proof. reflexivity. Qed.
 
+(* tie obligation: [df_required] means "no default value AND no default factory" -- a dataclass field declared with
+   default_factory keeps `default` MISSING, and a payload may leave its key out all the same (fixed finding F41) *)
+Lemma src_factory_defaults_are_defaults : src_dis_factory_is_default = true.
+Proof. reflexivity. Qed.
+
 (* A member class is its list of attributes (final key, has-no-default, init, Literal values).
    [choose] is the iteration order of a Python set of names -- the hash seed -- and is universally
    quantified: any function returning a sub-list of its argument.  [payload_of cl keys]: the keys of
